@@ -527,7 +527,9 @@ pub fn make_node<W: Wrap>(m: &NodeM, param: i64, snap_delay: bool) -> Option<W> 
         K_GRAPHNODE => {
             let k = m.inner_in.len();
             let mut g: Graph<NodeData<W>, ()> = Graph::with_capacity(k + 1, k);
-            CUR_TAG.with(|c| c.set(0));
+            // the nodes of the nested graph share one counter (outer tag + 2048): each of them must run
+            // once per outer invocation, whatever buffers the outer node has
+            CUR_TAG.with(|c| c.set(if tag < 2048 { tag + 2048 } else { 0 }));
             let out = g.add_node(NodeData::new(W::wrap(Sum), vec![Buffer::SILENT; m.inner_sum_bufs]));
             let mut ins = Vec::new();
             for j in 0..k {
@@ -791,6 +793,21 @@ fn drive<W: Wrap, G: GraphLike<W>>(src: &mut Source, obs: &mut Observer) -> Resu
                 // that swallows a call shows here even when the node has no buffers to compare)
                 for &n in &live {
                     let model = m.slots[n].as_ref().unwrap();
+                    if model.kind == K_GRAPHNODE && model.tag < 2048 {
+                        let inner = invocations(model.tag + 2048).unwrap_or(0);
+                        check_eq!(
+                            obs,
+                            inner,
+                            model.calls * (model.inner_in.len() as u32 + 1),
+                            "nodes.nested-invocations",
+                            "GraphNode tag {} behind {} ({} buffers, {} inner input nodes + inner sum): invocations of the nested graph's nodes after {} outer calls",
+                            model.tag,
+                            W::NAME,
+                            model.bufs.len(),
+                            model.inner_in.len(),
+                            model.calls
+                        );
+                    }
                     if let Some(real) = invocations(model.tag) {
                         check_eq!(
                             obs,
